@@ -128,5 +128,9 @@ Definition run (input : list Z) : list Z :=
       ++ [match receive m' c' with Val (Some _) => 1 | _ => 0 end]
       ++ o_opt (match receive m' c' with Val (Some p) => Val (Some p) | _ => Val None end)
       ++ o_opt (receive_cli m' c')
+      (* the same replica given to the node that holds the chunk: the same verdict, and its own lookup is what it was (a
+         refused replica changes nothing; an accepted one carries the same key and bytes) *)
+      ++ o_opt (receive m' c')
+      ++ o_opt (fetch id held (m_nonce m) (m_shards m) (m_threshold m))
       ++ second
   end.
